@@ -1,7 +1,1242 @@
-//! C08 — not implemented yet.
+//! C08 — filters follow the documented filter semantics.
+//! Engine: inputmc filter — every document shape of a three-level nested schema (x segment layouts)
+//! x every filter tree up to a leaf/depth bound, each evaluated by the real `search(match_all,
+//! filter)` and by an independent evaluator over the source JSON.
+//!
+//! Known defect reproduced by this check (classifier `h7_explains`): per-parent child object indices
+//! restart in `collect_nested` (segment.rs), signature `C08-nested-child-parent-binding`.
+
+use std::collections::{BTreeMap, HashMap, HashSet};
+use std::sync::atomic::{AtomicBool, AtomicU64, Ordering};
+use std::sync::Arc;
+
+use parking_lot::Mutex;
+use rayon::prelude::*;
+use searchlite_core::api::types::{Filter, SearchRequest};
+use serde_json::{json, Map, Value};
+
+use vcore::ev::Reporter;
+use vcore::inp::*;
+use vcore::world::*;
+
 use crate::Ctx;
 
-pub fn run(_ctx: &Ctx) -> i32 {
-  eprintln!("C08: check not implemented");
-  2
+const SIG_H7: &str = "C08-nested-child-parent-binding";
+
+// ---------------------------------------------------------------------------------------------
+// Schema: top-level kw / n / f and comment{author, score, reply{tag, n, deep{k}}}.
+
+fn schema_json() -> Value {
+  json!({"doc_id_field": "_id",
+    "text_fields": [{"name": "body", "analyzer": "default", "stored": true, "indexed": true, "nullable": true}],
+    "keyword_fields": [{"name": "kw", "stored": true, "indexed": true, "fast": true, "nullable": true}],
+    "numeric_fields": [{"name": "n", "i64": true, "fast": true, "stored": true, "nullable": true},
+                       {"name": "f", "i64": false, "fast": true, "stored": true, "nullable": true}],
+    "nested_fields": [{"name": "comment", "nullable": true, "fields": [
+      {"type": "keyword", "name": "author", "stored": true, "indexed": true, "fast": true, "nullable": true},
+      {"type": "numeric", "name": "score", "i64": true, "fast": true, "stored": true, "nullable": true},
+      {"type": "object", "name": "reply", "nullable": true, "fields": [
+        {"type": "keyword", "name": "tag", "stored": true, "indexed": true, "fast": true, "nullable": true},
+        {"type": "numeric", "name": "n", "i64": true, "fast": true, "stored": true, "nullable": true},
+        {"type": "object", "name": "deep", "nullable": true, "fields": [
+          {"type": "keyword", "name": "k", "stored": true, "indexed": true, "fast": true, "nullable": true}]}]}]}]})
+}
+
+#[derive(Clone, Copy, PartialEq, Eq, Debug)]
+enum FT {
+  Kw,
+  I64,
+  F64,
+}
+
+struct Level {
+  child: Option<&'static str>,
+  fields: &'static [(&'static str, FT)],
+}
+
+/// Level 0 = document, 1 = comment, 2 = reply, 3 = deep.
+const LEVELS: [Level; 4] = [
+  Level { child: Some("comment"), fields: &[("kw", FT::Kw), ("n", FT::I64), ("f", FT::F64)] },
+  Level { child: Some("reply"), fields: &[("author", FT::Kw), ("score", FT::I64)] },
+  Level { child: Some("deep"), fields: &[("tag", FT::Kw), ("n", FT::I64)] },
+  Level { child: None, fields: &[("k", FT::Kw)] },
+];
+
+// ---------------------------------------------------------------------------------------------
+// Document model for the oracle (parsed from the source JSON; independent of the index).
+
+#[derive(Debug, Clone, Default)]
+struct Obj {
+  /// values per field of this level (same order as LEVELS[level].fields)
+  kw: Vec<Vec<String>>, // lowercased
+  i: Vec<Vec<i64>>,
+  f: Vec<Vec<f64>>,
+  ch: Vec<Obj>,
+}
+
+fn parse_obj(level: usize, m: &Map<String, Value>, null_as_empty: bool) -> Obj {
+  let lv = &LEVELS[level];
+  let n = lv.fields.len();
+  let mut o = Obj { kw: vec![vec![]; n], i: vec![vec![]; n], f: vec![vec![]; n], ch: vec![] };
+  for (fi, (name, ft)) in lv.fields.iter().enumerate() {
+    let Some(v) = m.get(*name) else { continue };
+    let items: Vec<&Value> = match v {
+      Value::Array(a) => a.iter().collect(),
+      Value::Null => vec![],
+      other => vec![other],
+    };
+    for it in items {
+      match ft {
+        FT::Kw => {
+          if let Some(s) = it.as_str() {
+            o.kw[fi].push(s.to_lowercase());
+          }
+        }
+        FT::I64 => {
+          if let Some(x) = it.as_i64() {
+            o.i[fi].push(x);
+          }
+        }
+        FT::F64 => {
+          if let Some(x) = it.as_f64() {
+            o.f[fi].push(x);
+          }
+        }
+      }
+    }
+  }
+  if let Some(cn) = lv.child {
+    match m.get(cn) {
+      Some(Value::Array(a)) => {
+        for x in a {
+          if let Value::Object(mm) = x {
+            o.ch.push(parse_obj(level + 1, mm, null_as_empty));
+          } else if x.is_null() && null_as_empty {
+            o.ch.push(parse_obj(level + 1, &Map::new(), null_as_empty));
+          }
+        }
+      }
+      Some(Value::Object(mm)) => o.ch.push(parse_obj(level + 1, mm, null_as_empty)),
+      _ => {}
+    }
+  }
+  o
+}
+
+fn has_null_element(v: &Value) -> bool {
+  match v {
+    Value::Array(a) => a.iter().any(|x| x.is_null() || has_null_element(x)),
+    Value::Object(m) => m.iter().any(|(k, x)| LEVELS.iter().any(|l| l.child == Some(k.as_str())) && has_null_element(x)),
+    _ => false,
+  }
+}
+
+/// A document as the oracle sees it. A `null` *element* inside an array of nested objects is either
+/// no object at all (`a`) or an object without properties (`b`, what the implementation does; it then
+/// satisfies `Nested(p, Not(..))`). The documentation does not say which, so both are admitted.
+struct Model {
+  a: Obj,
+  b: Option<Obj>,
+}
+
+fn model(doc: &Value) -> Model {
+  let m = doc.as_object().expect("document object");
+  Model { a: parse_obj(0, m, false), b: if has_null_element(doc) { Some(parse_obj(0, m, true)) } else { None } }
+}
+
+// ---------------------------------------------------------------------------------------------
+// Compiled filter for the oracle.
+
+#[derive(Debug, Clone)]
+enum Pred {
+  KwEq(String),
+  KwIn(Vec<String>),
+  I64(i64, i64),
+  F64(f64, f64),
+}
+
+#[derive(Debug, Clone)]
+enum CT {
+  /// `hops` child levels below the scope object, field `idx` of type `ft` there
+  Leaf { hops: u8, ft: FT, idx: u8, pred: Pred },
+  Not(Box<CT>),
+  And(Vec<CT>),
+  Or(Vec<CT>),
+  Nested(Box<CT>),
+}
+
+fn resolve(scope: usize, field: &str) -> Result<(u8, FT, u8), String> {
+  let mut level = scope;
+  let segs: Vec<&str> = field.split('.').collect();
+  for s in &segs[..segs.len() - 1] {
+    if LEVELS[level].child != Some(*s) {
+      return Err(format!("path segment `{s}` is not the nested child of level {level}"));
+    }
+    level += 1;
+  }
+  let last = segs[segs.len() - 1];
+  match LEVELS[level].fields.iter().position(|(n, _)| *n == last) {
+    Some(i) => Ok(((level - scope) as u8, LEVELS[level].fields[i].1, i as u8)),
+    None => Err(format!("unknown field `{field}` in scope level {scope}")),
+  }
+}
+
+fn compile(f: &Filter, scope: usize) -> Result<CT, String> {
+  Ok(match f {
+    Filter::KeywordEq { field, value } => {
+      let (hops, ft, idx) = resolve(scope, field)?;
+      if ft != FT::Kw {
+        return Err(format!("keyword filter on numeric field {field}: not in the alphabet"));
+      }
+      CT::Leaf { hops, ft, idx, pred: Pred::KwEq(value.to_lowercase()) }
+    }
+    Filter::KeywordIn { field, values } => {
+      let (hops, ft, idx) = resolve(scope, field)?;
+      if ft != FT::Kw {
+        return Err(format!("keyword filter on numeric field {field}: not in the alphabet"));
+      }
+      CT::Leaf { hops, ft, idx, pred: Pred::KwIn(values.iter().map(|v| v.to_lowercase()).collect()) }
+    }
+    Filter::I64Range { field, min, max } => {
+      let (hops, ft, idx) = resolve(scope, field)?;
+      if ft == FT::Kw {
+        return Err(format!("range filter on keyword field {field}: not in the alphabet"));
+      }
+      CT::Leaf { hops, ft, idx, pred: Pred::I64(*min, *max) }
+    }
+    Filter::F64Range { field, min, max } => {
+      let (hops, ft, idx) = resolve(scope, field)?;
+      if ft == FT::Kw {
+        return Err(format!("range filter on keyword field {field}: not in the alphabet"));
+      }
+      CT::Leaf { hops, ft, idx, pred: Pred::F64(*min, *max) }
+    }
+    Filter::Nested { path, filter } => {
+      if LEVELS[scope].child != Some(path.as_str()) {
+        return Err(format!("Nested path `{path}` is not the nested child of scope level {scope}"));
+      }
+      CT::Nested(Box::new(compile(filter, scope + 1)?))
+    }
+    Filter::And(v) => CT::And(v.iter().map(|x| compile(x, scope)).collect::<Result<_, _>>()?),
+    Filter::Or(v) => CT::Or(v.iter().map(|x| compile(x, scope)).collect::<Result<_, _>>()?),
+    Filter::Not(x) => CT::Not(Box::new(compile(x, scope)?)),
+  })
+}
+
+fn leaf_here(o: &Obj, ft: FT, idx: usize, pred: &Pred) -> bool {
+  match (pred, ft) {
+    (Pred::KwEq(v), FT::Kw) => o.kw[idx].iter().any(|x| x == v),
+    (Pred::KwIn(vs), FT::Kw) => o.kw[idx].iter().any(|x| vs.iter().any(|v| v == x)),
+    (Pred::I64(a, b), FT::I64) => o.i[idx].iter().any(|x| x >= a && x <= b),
+    (Pred::F64(a, b), FT::F64) => o.f[idx].iter().any(|x| x >= a && x <= b),
+    // a range on a field of the other numeric type matches nothing
+    _ => false,
+  }
+}
+
+fn leaf_any(o: &Obj, hops: u8, ft: FT, idx: usize, pred: &Pred) -> bool {
+  if hops == 0 {
+    leaf_here(o, ft, idx, pred)
+  } else {
+    o.ch.iter().any(|c| leaf_any(c, hops - 1, ft, idx, pred))
+  }
+}
+
+/// The documented semantics. README fixes that sibling Nested clauses with the same path under one
+/// And bind to the same object `c`. It does not say whether the clauses' inner filters are then
+/// evaluated in `c` one by one (`merge = false`) or as one And-list, so that inner Nested clauses
+/// of *different* siblings bind to the same grandchild as well (`merge = true`; this is what
+/// `And[Nested c (Nested r A), Nested c (Nested r B)]` means if chains that share a prefix share their
+/// objects, the pattern all README examples use). Both readings are computed; a document is judged
+/// only when they agree.
+fn eval_r(t: &CT, o: &Obj, merge: bool) -> bool {
+  match t {
+    CT::Leaf { hops, ft, idx, pred } => leaf_any(o, *hops, *ft, *idx as usize, pred),
+    CT::Not(x) => !eval_r(x, o, merge),
+    CT::Or(v) => v.iter().any(|x| eval_r(x, o, merge)),
+    CT::Nested(x) => o.ch.iter().any(|c| eval_r(x, c, merge)),
+    CT::And(v) => {
+      let refs: Vec<&CT> = v.iter().collect();
+      eval_and(&refs, o, merge)
+    }
+  }
+}
+
+fn eval_and(v: &[&CT], o: &Obj, merge: bool) -> bool {
+  // every level has exactly one nested child path, so all Nested siblings share their path and
+  // must be satisfied by the same object
+  let mut inner: Vec<&CT> = Vec::new();
+  for x in v {
+    match x {
+      CT::Nested(i) => inner.push(i.as_ref()),
+      other => {
+        if !eval_r(other, o, merge) {
+          return false;
+        }
+      }
+    }
+  }
+  if inner.is_empty() {
+    return true;
+  }
+  if merge {
+    o.ch.iter().any(|c| eval_and(&inner, c, merge))
+  } else {
+    o.ch.iter().any(|c| inner.iter().all(|x| eval_r(x, c, merge)))
+  }
+}
+
+fn eval(t: &CT, o: &Obj) -> bool {
+  eval_r(t, o, false)
+}
+
+/// Some(answer) when all admissible readings agree, None when the input is ambiguous for `m`.
+fn eval_demanded(t: &CT, m: &Model) -> Option<bool> {
+  let a = eval_r(t, &m.a, false);
+  if a != eval_r(t, &m.a, true) {
+    return None;
+  }
+  if let Some(b) = &m.b {
+    if a != eval_r(t, b, false) || a != eval_r(t, b, true) {
+      return None;
+    }
+  }
+  Some(a)
+}
+
+/// Naive "flattened" reading (no object binding at all): used only to measure how many evaluated
+/// cases are decided by the binding rules.
+fn eval_flat(t: &CT, root: &Obj, scope: u8) -> bool {
+  match t {
+    CT::Leaf { hops, ft, idx, pred } => leaf_any(root, scope + *hops, *ft, *idx as usize, pred),
+    CT::Not(x) => !eval_flat(x, root, scope),
+    CT::Or(v) => v.iter().any(|x| eval_flat(x, root, scope)),
+    CT::And(v) => v.iter().all(|x| eval_flat(x, root, scope)),
+    CT::Nested(x) => eval_flat(x, root, scope + 1),
+  }
+}
+
+fn has_nested_at(f: &Filter, depth_now: usize, want: usize) -> bool {
+  match f {
+    Filter::Nested { filter, .. } => depth_now + 1 >= want || has_nested_at(filter, depth_now + 1, want),
+    Filter::And(v) | Filter::Or(v) => v.iter().any(|x| has_nested_at(x, depth_now, want)),
+    Filter::Not(x) => has_nested_at(x, depth_now, want),
+    _ => false,
+  }
+}
+
+// ---------------------------------------------------------------------------------------------
+// Model of the H7 defect: what `collect_nested` writes (object counts overwritten per parent,
+// child indices restarting per parent, values of different parents' children merged by index) and
+// what filters.rs then reads. Used only to decide whether a failure is explained by that defect.
+
+#[derive(Default, Debug)]
+struct Sim {
+  counts: HashMap<String, usize>,
+  parents: HashMap<String, Vec<usize>>,
+  kw: HashMap<String, Vec<Vec<String>>>,
+  i: HashMap<String, Vec<Vec<i64>>>,
+}
+
+fn sim_nested(st: &mut Sim, level: usize, v: &Value, prefix: &str, parent: Option<usize>) {
+  match v {
+    Value::Array(arr) => {
+      st.counts.insert(prefix.to_string(), arr.len());
+      if let Some(p) = parent {
+        let e = st.parents.entry(prefix.to_string()).or_insert_with(|| vec![usize::MAX; arr.len()]);
+        if e.len() < arr.len() {
+          e.resize(arr.len(), usize::MAX);
+        }
+        for s in e.iter_mut().take(arr.len()) {
+          *s = p;
+        }
+      } else {
+        st.parents.entry(prefix.to_string()).or_insert_with(|| vec![usize::MAX; arr.len()]);
+      }
+      for (idx, x) in arr.iter().enumerate() {
+        if let Value::Object(m) = x {
+          sim_object(st, level, m, prefix, idx);
+        }
+      }
+    }
+    Value::Object(m) => {
+      st.counts.insert(prefix.to_string(), 1);
+      st.parents.entry(prefix.to_string()).or_insert_with(|| vec![parent.unwrap_or(usize::MAX)]);
+      sim_object(st, level, m, prefix, 0);
+    }
+    _ => {}
+  }
+}
+
+fn sim_object(st: &mut Sim, level: usize, m: &Map<String, Value>, prefix: &str, object_idx: usize) {
+  let count = *st.counts.get(prefix).unwrap_or(&0);
+  let lv = &LEVELS[level];
+  for (k, v) in m {
+    if Some(k.as_str()) == lv.child {
+      if v.is_null() {
+        continue;
+      }
+      sim_nested(st, level + 1, v, &format!("{prefix}.{k}"), Some(object_idx));
+      continue;
+    }
+    let Some((_, ft)) = lv.fields.iter().find(|(n, _)| n == k) else { continue };
+    let full = format!("{prefix}.{k}");
+    let items: Vec<&Value> = match v {
+      Value::Array(a) => a.iter().collect(),
+      Value::Null => vec![],
+      o => vec![o],
+    };
+    match ft {
+      FT::Kw => {
+        let vals: Vec<String> = items.iter().filter_map(|x| x.as_str().map(|s| s.to_string())).collect();
+        if !vals.is_empty() {
+          let e = st.kw.entry(full).or_insert_with(|| vec![vec![]; count]);
+          if e.len() < count {
+            e.resize(count, vec![]);
+          }
+          if object_idx < e.len() {
+            e[object_idx].extend(vals);
+          }
+        }
+      }
+      FT::I64 => {
+        let vals: Vec<i64> = items.iter().filter_map(|x| x.as_i64()).collect();
+        if !vals.is_empty() {
+          let e = st.i.entry(full).or_insert_with(|| vec![vec![]; count]);
+          if e.len() < count {
+            e.resize(count, vec![]);
+          }
+          if object_idx < e.len() {
+            e[object_idx].extend(vals);
+          }
+        }
+      }
+      FT::F64 => {}
+    }
+  }
+}
+
+fn sim_build(doc: &Value) -> Sim {
+  let mut st = Sim::default();
+  if let Some(v) = doc.get("comment") {
+    if !v.is_null() {
+      sim_nested(&mut st, 1, v, "comment", None);
+    }
+  }
+  st
+}
+
+fn ci_eq(a: &str, b: &str) -> bool {
+  a.to_lowercase() == b.to_lowercase()
+}
+
+fn sim_group(st: &Sim, root: &Obj, base: &str, path: &str, parent: Option<usize>, group: &[&Filter]) -> bool {
+  let full = if base.is_empty() { path.to_string() } else { format!("{base}.{path}") };
+  let count = *st.counts.get(&full).unwrap_or(&0);
+  let empty = vec![];
+  let parents = st.parents.get(&full).unwrap_or(&empty);
+  for idx in 0..count {
+    if let Some(p) = parent {
+      let got = parents.get(idx).copied().filter(|x| *x != usize::MAX && *x != u32::MAX as usize);
+      if got != Some(p) {
+        continue;
+      }
+    }
+    if group.iter().all(|f| sim_eval(st, root, f, &full, Some(idx))) {
+      return true;
+    }
+  }
+  false
+}
+
+fn sim_and(st: &Sim, root: &Obj, filters: &[Filter], base: &str, obj: Option<usize>) -> bool {
+  let mut groups: BTreeMap<&str, Vec<&Filter>> = BTreeMap::new();
+  for f in filters {
+    match f {
+      Filter::Nested { path, filter } => groups.entry(path.as_str()).or_default().push(filter.as_ref()),
+      other => {
+        if !sim_eval(st, root, other, base, obj) {
+          return false;
+        }
+      }
+    }
+  }
+  groups.iter().all(|(p, g)| sim_group(st, root, base, p, obj, g))
+}
+
+fn sim_eval(st: &Sim, root: &Obj, f: &Filter, base: &str, obj: Option<usize>) -> bool {
+  let q = |field: &str| if base.is_empty() { field.to_string() } else { format!("{base}.{field}") };
+  match (f, obj) {
+    (Filter::And(v), _) => sim_and(st, root, v, base, obj),
+    (Filter::Or(v), _) => v.iter().any(|x| sim_eval(st, root, x, base, obj)),
+    (Filter::Not(x), _) => !sim_eval(st, root, x, base, obj),
+    (Filter::Nested { path, filter }, _) => sim_group(st, root, base, path, obj, &[filter.as_ref()]),
+    // document-level leaves (plain or dotted) read every recorded value: unaffected by the defect
+    (leaf, None) => compile(leaf, 0).map(|c| eval(&c, root)).unwrap_or(false),
+    (Filter::KeywordEq { field, value }, Some(i)) => st.kw.get(&q(field)).and_then(|v| v.get(i)).map(|vals| vals.iter().any(|x| ci_eq(x, value))).unwrap_or(false),
+    (Filter::KeywordIn { field, values }, Some(i)) => {
+      st.kw.get(&q(field)).and_then(|v| v.get(i)).map(|vals| vals.iter().any(|x| values.iter().any(|t| ci_eq(t, x)))).unwrap_or(false)
+    }
+    (Filter::I64Range { field, min, max }, Some(i)) => st.i.get(&q(field)).and_then(|v| v.get(i)).map(|vals| vals.iter().any(|x| x >= min && x <= max)).unwrap_or(false),
+    (Filter::F64Range { .. }, Some(_)) => false,
+  }
+}
+
+/// Level (2 = reply, 3 = deep) at which >= 2 parent objects each carry a non-null child value.
+fn h7_doc_level(doc: &Value) -> Option<usize> {
+  fn objects<'a>(v: Option<&'a Value>) -> Vec<&'a Map<String, Value>> {
+    match v {
+      Some(Value::Array(a)) => a.iter().filter_map(|x| x.as_object()).collect(),
+      Some(Value::Object(m)) => vec![m],
+      _ => vec![],
+    }
+  }
+  let comments = objects(doc.get("comment"));
+  let with_reply = comments.iter().filter(|c| c.get("reply").map(|r| !r.is_null()).unwrap_or(false)).count();
+  if with_reply >= 2 {
+    return Some(2);
+  }
+  let mut with_deep = 0;
+  for c in &comments {
+    for r in objects(c.get("reply")) {
+      if r.get("deep").map(|d| !d.is_null()).unwrap_or(false) {
+        with_deep += 1;
+      }
+    }
+  }
+  if with_deep >= 2 {
+    return Some(3);
+  }
+  None
+}
+
+/// Narrow classifier for the parent-binding defect: (1) the document has >= 2 objects at one nested
+/// level that each carry a child value, (2) the filter evaluates a Nested clause at that child level
+/// (a Nested inside a Nested), and (3) the observed answer is exactly what the model of the defect
+/// predicts for this document and filter. Anything else stays unexplained.
+fn h7_explains(doc: &Value, root: &Obj, f: &Filter, observed: bool) -> bool {
+  let Some(level) = h7_doc_level(doc) else { return false };
+  if !has_nested_at(f, 0, level) {
+    return false;
+  }
+  let st = sim_build(doc);
+  sim_eval(&st, root, f, "", None) == observed
+}
+
+// ---------------------------------------------------------------------------------------------
+// Filter trees.
+
+#[derive(Clone, Debug, PartialEq, Eq, Hash)]
+enum T {
+  Leaf(u16),
+  Not(Box<T>),
+  Nested(u8, Box<T>),
+  And(Vec<T>),
+  Or(Vec<T>),
+}
+
+#[derive(Clone, Copy, PartialEq, Eq, Hash, Debug)]
+enum Par {
+  Root,
+  Not,
+  And,
+  Or,
+  Nested,
+}
+
+/// (scope level, filter JSON). Document values are alice/bob (stored as "Alice"/"bob"), x/y (+ "Y",
+/// "z"), 1/2/3, 0.5/1.0/1.5/2.5, p/q.
+fn leaf_table() -> Vec<(usize, Value)> {
+  vec![
+    // scope 0
+    (0, json!({"KeywordEq": {"field": "kw", "value": "X"}})),                           // 0 case variant
+    (0, json!({"I64Range": {"field": "n", "min": 2, "max": 3}})),                       // 1 both bounds hit
+    (0, json!({"KeywordEq": {"field": "comment.author", "value": "ALICE"}})),           // 2 dotted, level 1
+    (0, json!({"KeywordEq": {"field": "comment.reply.tag", "value": "x"}})),            // 3 dotted, level 2
+    (0, json!({"KeywordIn": {"field": "kw", "values": ["y", "Z"]}})),                   // 4
+    (0, json!({"F64Range": {"field": "f", "min": 0.5, "max": 1.0}})),                   // 5 both bounds hit
+    (0, json!({"I64Range": {"field": "f", "min": 0, "max": 3}})),                       // 6 type mismatch
+    (0, json!({"F64Range": {"field": "n", "min": 0.0, "max": 3.0}})),                   // 7 type mismatch
+    (0, json!({"I64Range": {"field": "comment.reply.n", "min": 2, "max": 2}})),         // 8 dotted numeric
+    (0, json!({"KeywordEq": {"field": "comment.reply.deep.k", "value": "P"}})),         // 9 dotted, level 3
+    // scope 1 (inside Nested comment)
+    (1, json!({"KeywordEq": {"field": "author", "value": "alice"}})),                   // 10
+    (1, json!({"I64Range": {"field": "score", "min": 1, "max": 1}})),                   // 11
+    (1, json!({"KeywordIn": {"field": "author", "values": ["BOB", "carol"]}})),         // 12
+    (1, json!({"F64Range": {"field": "score", "min": 0.0, "max": 5.0}})),               // 13 type mismatch
+    // scope 2 (inside Nested reply)
+    (2, json!({"KeywordEq": {"field": "tag", "value": "X"}})),                          // 14
+    (2, json!({"I64Range": {"field": "n", "min": 2, "max": 2}})),                       // 15
+    (2, json!({"KeywordIn": {"field": "tag", "values": ["y"]}})),                       // 16
+    // scope 3 (inside Nested deep)
+    (3, json!({"KeywordEq": {"field": "k", "value": "P"}})),                            // 17
+    (3, json!({"KeywordIn": {"field": "k", "values": ["q", "r"]}})),                    // 18
+  ]
+}
+
+/// Leaf alphabets by tree size: trees with few leaves use the full alphabet, larger ones a reduced
+/// one (`[scope] -> leaf ids`).
+fn leaf_sets(k: usize) -> [Vec<u16>; 4] {
+  match k {
+    1 | 2 => [vec![0, 1, 2, 3, 4, 5, 6, 7, 8, 9], vec![10, 11, 12, 13], vec![14, 15, 16], vec![17, 18]],
+    3 => [vec![0, 1, 2, 3], vec![10, 11], vec![14, 15], vec![17]],
+    _ => [vec![0, 3], vec![10, 11], vec![14, 15], vec![17]],
+  }
+}
+
+struct Gen {
+  leaves: [Vec<u16>; 4],
+  memo: HashMap<(u8, u8, u8, Par), Arc<Vec<T>>>,
+}
+
+fn compositions_k(k: usize) -> Vec<Vec<usize>> {
+  // ordered compositions of k with at least 2 parts
+  compositions(k).into_iter().filter(|c| c.len() >= 2).collect()
+}
+
+impl Tree {
+  fn filter(&self) -> &Filter {
+    self.req.filter.as_ref().unwrap()
+  }
+  fn json(&self) -> Value {
+    serde_json::to_value(self.filter()).unwrap()
+  }
+}
+
+impl Gen {
+  /// All trees in `scope` with exactly `k` leaves and depth <= `d` whose root may sit under `par`.
+  /// Canonical-form reductions: no Not directly under Not, no And directly under And, no Or
+  /// directly under Or, And/Or have >= 2 children (children are ordered).
+  fn gen(&mut self, scope: u8, k: u8, d: u8, par: Par) -> Arc<Vec<T>> {
+    if k == 0 || d == 0 {
+      return Arc::new(vec![]);
+    }
+    if let Some(v) = self.memo.get(&(scope, k, d, par)) {
+      return v.clone();
+    }
+    let mut out: Vec<T> = Vec::new();
+    if k == 1 {
+      for l in &self.leaves[scope as usize] {
+        out.push(T::Leaf(*l));
+      }
+    }
+    if d >= 2 {
+      if par != Par::Not {
+        for t in self.gen(scope, k, d - 1, Par::Not).iter() {
+          out.push(T::Not(Box::new(t.clone())));
+        }
+      }
+      if scope < 3 {
+        for t in self.gen(scope + 1, k, d - 1, Par::Nested).iter() {
+          out.push(T::Nested(scope + 1, Box::new(t.clone())));
+        }
+      }
+      if k >= 2 {
+        for (is_and, p) in [(true, Par::And), (false, Par::Or)] {
+          if par == p {
+            continue;
+          }
+          for comp in compositions_k(k as usize) {
+            let lists: Vec<Arc<Vec<T>>> = comp.iter().map(|ki| self.gen(scope, *ki as u8, d - 1, p)).collect();
+            if lists.iter().any(|l| l.is_empty()) {
+              continue;
+            }
+            let mut idx = vec![0usize; lists.len()];
+            'prod: loop {
+              let ch: Vec<T> = idx.iter().enumerate().map(|(i, j)| lists[i][*j].clone()).collect();
+              out.push(if is_and { T::And(ch) } else { T::Or(ch) });
+              let mut pos = lists.len();
+              loop {
+                if pos == 0 {
+                  break 'prod;
+                }
+                pos -= 1;
+                idx[pos] += 1;
+                if idx[pos] < lists[pos].len() {
+                  break;
+                }
+                idx[pos] = 0;
+              }
+            }
+          }
+        }
+      }
+    }
+    let a = Arc::new(out);
+    self.memo.insert((scope, k, d, par), a.clone());
+    a
+  }
+}
+
+fn tree_json(t: &T, leaves: &[(usize, Value)]) -> Value {
+  match t {
+    T::Leaf(i) => leaves[*i as usize].1.clone(),
+    T::Not(x) => json!({"Not": tree_json(x, leaves)}),
+    T::Nested(l, x) => json!({"Nested": {"path": LEVELS[*l as usize - 1].child.unwrap(), "filter": tree_json(x, leaves)}}),
+    T::And(v) => json!({"And": v.iter().map(|x| tree_json(x, leaves)).collect::<Vec<_>>()}),
+    T::Or(v) => json!({"Or": v.iter().map(|x| tree_json(x, leaves)).collect::<Vec<_>>()}),
+  }
+}
+
+fn tree_leaves(t: &T) -> usize {
+  match t {
+    T::Leaf(_) => 1,
+    T::Not(x) | T::Nested(_, x) => tree_leaves(x),
+    T::And(v) | T::Or(v) => v.iter().map(tree_leaves).sum(),
+  }
+}
+
+fn tree_size(t: &T) -> usize {
+  match t {
+    T::Leaf(_) => 1,
+    T::Not(x) | T::Nested(_, x) => 1 + tree_size(x),
+    T::And(v) | T::Or(v) => 1 + v.iter().map(tree_size).sum::<usize>(),
+  }
+}
+
+struct Tree {
+  ct: CT,
+  req: SearchRequest,
+  leaves: usize,
+  size: usize,
+}
+
+fn base_request() -> SearchRequest {
+  req(json!({"query": {"type": "match_all"}, "limit": 10, "execution": "bm25"}))
+}
+
+fn mk_tree(fj: Value, leaves: usize, size: usize, base: &SearchRequest) -> Tree {
+  let filter: Filter = serde_json::from_value(fj).expect("filter json");
+  let ct = compile(&filter, 0).expect("filter compiles for the oracle");
+  let mut r = base.clone();
+  r.filter = Some(filter);
+  Tree { ct, req: r, leaves, size }
+}
+
+/// All trees, simplest first. `max_leaves` 3 (quick) or 4 (thorough); depth <= 4 (a leaf has
+/// depth 1).
+fn all_trees(max_leaves: usize, depth: u8) -> Vec<Tree> {
+  let table = leaf_table();
+  let base = base_request();
+  let mut out = Vec::new();
+  for k in 1..=max_leaves {
+    let mut g = Gen { leaves: leaf_sets(k), memo: HashMap::new() };
+    let ts = g.gen(0, k as u8, depth, Par::Root);
+    let mut v: Vec<&T> = ts.iter().collect();
+    v.sort_by_key(|t| tree_size(t));
+    for t in v {
+      out.push(mk_tree(tree_json(t, &table), tree_leaves(t), tree_size(t), &base));
+    }
+  }
+  out
+}
+
+// ---------------------------------------------------------------------------------------------
+// Documents.
+
+fn reply_alphabet(thorough: bool) -> Vec<Value> {
+  let mut v = vec![
+    json!({"tag": "x", "n": 1}),
+    json!({"tag": "y", "n": 2}),
+    json!({"tag": "x", "n": 2, "deep": {"k": "p"}}),
+    json!({"tag": "Y", "n": 1, "deep": {"k": "q"}}),
+  ];
+  if thorough {
+    // multi-valued properties, array-form deep, missing property
+    v.push(json!({"tag": ["x", "y"], "n": [1, 2], "deep": [{"k": "p"}]}));
+  }
+  v
+}
+
+/// Values of the `reply` key inside a comment (None = key absent).
+fn reply_forms(thorough: bool) -> Vec<Option<Value>> {
+  let r = reply_alphabet(thorough);
+  let mut out: Vec<Option<Value>> = vec![None, Some(json!([]))];
+  if thorough {
+    out.push(Some(Value::Null));
+    for x in [0usize, 2, 4] {
+      out.push(Some(r[x].clone())); // single object instead of an array
+    }
+    for x in &r {
+      out.push(Some(json!([x])));
+    }
+    for a in &r {
+      for b in &r {
+        out.push(Some(json!([a, b])));
+      }
+    }
+    out.push(Some(json!([null, r[1]])));
+  } else {
+    out.push(Some(r[0].clone())); // single object
+    out.push(Some(json!([r[1]])));
+    out.push(Some(json!([r[3]])));
+    out.push(Some(json!([r[0], r[1]])));
+    out.push(Some(json!([r[2], r[3]])));
+  }
+  out
+}
+
+fn comment_alphabet(thorough: bool) -> Vec<Value> {
+  let mut out = Vec::new();
+  for (a, s) in [("Alice", 1), ("bob", 2)] {
+    for rf in reply_forms(thorough) {
+      let mut c = json!({"author": a, "score": s});
+      if let Some(r) = rf {
+        c["reply"] = r;
+      }
+      out.push(c);
+    }
+  }
+  if thorough {
+    out.push(json!({"author": ["Alice", "bob"], "score": [1, 2]}));
+    out.push(json!({"author": null, "reply": [{"tag": "x", "deep": null}]}));
+    out.push(json!({"score": 2, "reply": {"n": 2, "deep": {"k": "p"}}}));
+  }
+  out
+}
+
+/// Values of the `comment` key of a document (None = absent).
+fn comment_forms(thorough: bool) -> Vec<Option<Value>> {
+  let c = comment_alphabet(thorough);
+  let mut out: Vec<Option<Value>> = vec![None, Some(Value::Null), Some(json!([]))];
+  for x in &c {
+    out.push(Some(x.clone())); // single object
+  }
+  for x in c.iter().step_by(3) {
+    out.push(Some(json!([x]))); // one-element array
+  }
+  for a in &c {
+    for b in &c {
+      out.push(Some(json!([a, b])));
+    }
+  }
+  out.push(Some(json!([null, c[c.len() - 1]])));
+  out.push(Some(json!([c[2], null])));
+  out
+}
+
+fn top_variants() -> Vec<Value> {
+  vec![
+    json!({}),
+    json!({"kw": "x", "n": 1, "f": 1.0}),
+    json!({"kw": ["x", "Y"], "n": [1, 2], "f": [0.5, 2.5]}),
+    json!({"kw": "Y", "n": 2, "f": 2.5}),
+    json!({"kw": [], "n": [], "f": []}),
+    json!({"kw": ["z"], "n": [3], "f": [1.5]}),
+    json!({"kw": null, "n": null, "f": null}),
+  ]
+}
+
+/// The document set: every `comment` form, each combined with one top-level variant (rotating), plus
+/// the full cross product of top-level variants with a small set of comment forms. Without `_id`.
+fn documents(thorough: bool) -> Vec<Value> {
+  let tops = top_variants();
+  let forms = comment_forms(thorough);
+  let mut out: Vec<Value> = Vec::new();
+  let mut seen: HashSet<String> = HashSet::new();
+  let mut push = |d: Value, out: &mut Vec<Value>| {
+    let s = d.to_string();
+    if seen.insert(s) {
+      out.push(d);
+    }
+  };
+  let mk = |t: &Value, c: &Option<Value>| {
+    let mut d = t.clone();
+    if let Some(c) = c {
+      d["comment"] = c.clone();
+    }
+    d
+  };
+  // cross product with the simplest comment forms
+  let small: Vec<Option<Value>> = vec![None, forms[3].clone(), Some(json!([{"author": "Alice", "score": 1, "reply": [{"tag": "x", "n": 1}]}, {"author": "bob", "score": 2, "reply": [{"tag": "y", "n": 2}]}]))];
+  for t in &tops {
+    for c in &small {
+      push(mk(t, c), &mut out);
+    }
+  }
+  let mut rest: Vec<Value> = Vec::new();
+  for (i, c) in forms.iter().enumerate() {
+    rest.push(mk(&tops[i % tops.len()], c));
+  }
+  rest.sort_by_key(|d| d.to_string().len());
+  for d in rest {
+    push(d, &mut out);
+  }
+  out
+}
+
+fn with_id(d: &Value, i: usize) -> Value {
+  let mut d = d.clone();
+  d["_id"] = json!(id_of(i));
+  d
+}
+
+fn mk_world(docs: &[&Value], layout: &[usize]) -> World {
+  let ds: Vec<Value> = docs.iter().enumerate().map(|(i, d)| with_id(d, i)).collect();
+  World::new("kw+num+nested3", schema_json(), ds).with_layout(layout.to_vec())
+}
+
+// ---------------------------------------------------------------------------------------------
+// One case = (world, filter).
+
+struct Failure {
+  sig: Option<&'static str>,
+  what: String,
+}
+
+/// Evaluate one filter on a built world; `roots[i]` is the parsed model of `world.docs[i]`.
+fn check_case(reader: &searchlite_core::api::IndexReader, world: &World, roots: &[Model], tree: &Tree) -> (Vec<Option<bool>>, Option<Failure>) {
+  let expected: Vec<Option<bool>> = roots.iter().map(|o| eval_demanded(&tree.ct, o)).collect();
+  let res = match search_caught(reader, &tree.req) {
+    Ok(r) => r,
+    Err(e) => {
+      return (expected, Some(Failure { sig: None, what: format!("search failed: {e}") }));
+    }
+  };
+  let got: HashSet<&str> = res.hits.iter().map(|h| h.doc_id.as_str()).collect();
+  if got.len() != res.hits.len() {
+    return (expected, Some(Failure { sig: None, what: "duplicate hit".into() }));
+  }
+  let mut wrong: Vec<usize> = Vec::new();
+  for (i, d) in world.docs.iter().enumerate() {
+    let id = d["_id"].as_str().unwrap();
+    if let Some(e) = expected[i] {
+      if got.contains(id) != e {
+        wrong.push(i);
+      }
+    }
+  }
+  if wrong.is_empty() {
+    if res.total_hits_estimate != res.hits.len() as u64 {
+      return (expected, Some(Failure { sig: None, what: format!("total_hits_estimate {} but {} hits were returned by an exhaustive (bm25) search with limit above the corpus size", res.total_hits_estimate, res.hits.len()) }));
+    }
+    return (expected, None);
+  }
+  let mut all_explained = true;
+  let mut parts = Vec::new();
+  for i in &wrong {
+    let exp = expected[*i].unwrap();
+    let observed = !exp;
+    let explained = h7_explains(&world.docs[*i], &roots[*i].a, tree.filter(), observed);
+    all_explained &= explained;
+    parts.push(format!(
+      "doc {} {} {} the filter but the documented semantics say it {}",
+      world.docs[*i],
+      if observed { "PASSES" } else { "is REJECTED by" },
+      tree.json(),
+      if exp { "passes" } else { "is rejected" }
+    ));
+  }
+  let what = format!("layout {:?}: {}", world.layout, parts.join("; "));
+  (expected, Some(Failure { sig: if all_explained { Some(SIG_H7) } else { None }, what }))
+}
+
+fn case_json(world: &World, filter: &Value) -> Value {
+  json!({"engine": "inputmc-filter", "world": world.to_json(), "filter": filter})
+}
+
+struct Kept {
+  key: (usize, usize, usize, usize),
+  sig: Option<&'static str>,
+  what: String,
+  case: Value,
+}
+
+/// Keep at most five failures per signature class, the smallest by `key`.
+fn keep_smallest(k: &mut Vec<Kept>, key: (usize, usize, usize, usize), sig: Option<&'static str>, mk: impl FnOnce() -> (String, Value)) {
+  let same: Vec<usize> = k.iter().enumerate().filter(|(_, x)| x.sig == sig).map(|(i, _)| i).collect();
+  if same.len() < 5 {
+    let (what, case) = mk();
+    k.push(Kept { key, sig, what, case });
+  } else if let Some(worst) = same.iter().max_by_key(|i| k[**i].key).copied() {
+    if key < k[worst].key {
+      let (what, case) = mk();
+      k[worst] = Kept { key, sig, what, case };
+    }
+  }
+}
+
+pub fn run(ctx: &Ctx) -> i32 {
+  let mut rep = Reporter::new("C08", ctx.tier, "exploration");
+  let quick = ctx.tier.is_quick();
+  if let Some(path) = &ctx.replay {
+    rep.set_replaying(true);
+    let v: Value = serde_json::from_slice(&std::fs::read(path).expect("replay file")).expect("json");
+    let cs = &v["case"];
+    let world = World::from_json(&cs["world"]);
+    let tree = mk_tree(cs["filter"].clone(), 0, 0, &base_request());
+    let roots: Vec<Model> = world.docs.iter().map(model).collect();
+    let run = || {
+      let idx = world.build();
+      let reader = idx.reader().expect("reader");
+      check_case(&reader, &world, &roots, &tree).1.map(|f| (f.sig, f.what))
+    };
+    let (a, b) = (run(), run());
+    if a.is_some() != b.is_some() {
+      vcore::ev::machinery_failure("NONDETERMINISM on replay");
+    }
+    return match a {
+      Some((sig, w)) => {
+        println!("VIOLATION property=C08 replay={path}\n  signature: {}\n  what: {w}", sig.unwrap_or("-"));
+        1
+      }
+      None => {
+        println!("replay: no violation");
+        0
+      }
+    };
+  }
+
+  let trees = all_trees(if quick { 3 } else { 4 }, 4);
+  let mut by_leaves: BTreeMap<usize, usize> = BTreeMap::new();
+  for t in &trees {
+    *by_leaves.entry(t.leaves).or_default() += 1;
+  }
+  let docs = documents(!quick);
+  // worlds, simplest first: single-document worlds over the quick document set; then (thorough) the
+  // large document set packed two per world; then all ordered pairs of a small subset x both layouts
+  let mut worlds: Vec<World> = Vec::new();
+  let quick_docs = documents(false);
+  for d in &quick_docs {
+    worlds.push(mk_world(&[d], &[1]));
+  }
+  let mut bulk_pairs = 0usize;
+  if !quick {
+    let qs: HashSet<String> = quick_docs.iter().map(|d| d.to_string()).collect();
+    let extra: Vec<&Value> = docs.iter().filter(|d| !qs.contains(&d.to_string())).collect();
+    for (pi, ch) in extra.chunks(2).enumerate() {
+      let lay: Vec<usize> = if ch.len() == 2 {
+        if pi % 2 == 0 {
+          vec![2]
+        } else {
+          vec![1, 1]
+        }
+      } else {
+        vec![1]
+      };
+      worlds.push(mk_world(ch, &lay));
+      bulk_pairs += 1;
+    }
+  }
+  let pair_pool: Vec<&Value> = {
+    let want = if quick { 8 } else { 32 };
+    // a spread over the document set: the first (simplest, all top-level variants) and a stride
+    let mut v: Vec<&Value> = quick_docs.iter().take(want / 2).collect();
+    let stride = (docs.len() / (want - v.len()).max(1)).max(1);
+    let mut i = docs.len() - 1;
+    while v.len() < want {
+      v.push(&docs[i]);
+      if i < stride {
+        break;
+      }
+      i -= stride;
+    }
+    v
+  };
+  for a in &pair_pool {
+    for b in &pair_pool {
+      for lay in [vec![2], vec![1, 1]] {
+        worlds.push(mk_world(&[a, b], &lay));
+      }
+    }
+  }
+  if std::env::var("C08_COUNTS").is_ok() {
+    println!("trees {:?} total {} docs {} worlds {} (pair pool {})", by_leaves, trees.len(), docs.len(), worlds.len(), pair_pool.len());
+    return 0;
+  }
+
+  let evals = AtomicU64::new(0);
+  let doc_evals = AtomicU64::new(0);
+  let pass_cnt = AtomicU64::new(0);
+  let reject_cnt = AtomicU64::new(0);
+  let binding_decisive = AtomicU64::new(0);
+  let ambiguous = AtomicU64::new(0);
+  let proper_subset = AtomicU64::new(0);
+  let tree_true: Vec<AtomicBool> = trees.iter().map(|_| AtomicBool::new(false)).collect();
+  let tree_false: Vec<AtomicBool> = trees.iter().map(|_| AtomicBool::new(false)).collect();
+  let fail_counts: Mutex<BTreeMap<String, u64>> = Mutex::new(BTreeMap::new());
+  let kept: Mutex<Vec<Kept>> = Mutex::new(Vec::new());
+  let sent_known = AtomicBool::new(false);
+  let deadline = if quick { 33.0 } else { 840.0 };
+  let timed_out = AtomicBool::new(false);
+  let worlds_done = AtomicU64::new(0);
+
+  // chunks keep the simplest-first order roughly intact under parallel execution
+  for chunk in worlds.chunks(256) {
+    chunk.par_iter().for_each(|world| {
+      if rep.elapsed_s() > deadline {
+        timed_out.store(true, Ordering::Relaxed);
+        return;
+      }
+      let idx = world.build();
+      let reader = idx.reader().expect("reader");
+      let roots: Vec<Model> = world.docs.iter().map(model).collect();
+      let (mut ev, mut pc, mut rc, mut bd, mut ps, mut amb) = (0u64, 0u64, 0u64, 0u64, 0u64, 0u64);
+      let mut local_counts: BTreeMap<&'static str, u64> = BTreeMap::new();
+      let mut local_kept: Vec<Kept> = Vec::new();
+      let doc_len: usize = world.docs.iter().map(|d| d.to_string().len()).sum();
+      for (ti, tree) in trees.iter().enumerate() {
+        if ti % 4096 == 4095 && rep.elapsed_s() > deadline {
+          timed_out.store(true, Ordering::Relaxed);
+          return;
+        }
+        ev += 1;
+        let (expected, fail) = check_case(&reader, world, &roots, tree);
+        let (mut t, mut rj) = (0, 0);
+        for (i, e) in expected.iter().enumerate() {
+          let Some(e) = e else {
+            amb += 1;
+            continue;
+          };
+          if *e {
+            pc += 1;
+            t += 1;
+            if !tree_true[ti].load(Ordering::Relaxed) {
+              tree_true[ti].store(true, Ordering::Relaxed);
+            }
+          } else {
+            rc += 1;
+            rj += 1;
+            if !tree_false[ti].load(Ordering::Relaxed) {
+              tree_false[ti].store(true, Ordering::Relaxed);
+            }
+          }
+          if eval_flat(&tree.ct, &roots[i].a, 0) != *e {
+            bd += 1;
+          }
+        }
+        if t > 0 && rj > 0 {
+          ps += 1;
+        }
+        if let Some(f) = fail {
+          *local_counts.entry(f.sig.unwrap_or("unexplained")).or_default() += 1;
+          if let Some(sig) = f.sig {
+            if rep.is_known_open(sig) {
+              // tolerated known finding: count every case, keep the full witness for the first only
+              if !sent_known.swap(true, Ordering::SeqCst) {
+                rep.fail(Some(sig), &f.what, case_json(world, &tree.json()));
+              } else {
+                rep.fail(Some(sig), "", Value::Null);
+              }
+              continue;
+            }
+          }
+          let key = (world.docs.len(), doc_len, tree.leaves, tree.size);
+          keep_smallest(&mut local_kept, key, f.sig, || (f.what.clone(), case_json(world, &tree.json())));
+        }
+      }
+      if !local_counts.is_empty() {
+        let mut fc = fail_counts.lock();
+        for (l, n) in local_counts {
+          *fc.entry(l.to_string()).or_default() += n;
+        }
+        let mut k = kept.lock();
+        for x in local_kept {
+          let (key, sig) = (x.key, x.sig);
+          let mut slot = Some(x);
+          keep_smallest(&mut k, key, sig, || {
+            let x = slot.take().unwrap();
+            (x.what, x.case)
+          });
+        }
+      }
+      evals.fetch_add(ev, Ordering::Relaxed);
+      doc_evals.fetch_add(pc + rc, Ordering::Relaxed);
+      pass_cnt.fetch_add(pc, Ordering::Relaxed);
+      reject_cnt.fetch_add(rc, Ordering::Relaxed);
+      binding_decisive.fetch_add(bd, Ordering::Relaxed);
+      ambiguous.fetch_add(amb, Ordering::Relaxed);
+      proper_subset.fetch_add(ps, Ordering::Relaxed);
+      worlds_done.fetch_add(1, Ordering::Relaxed);
+      if rep.sample_full() {
+        return;
+      }
+      if world.docs.len() == 2 {
+        let tree = &trees[trees.len() / 2];
+        rep.sample(json!({"world": world.describe(), "filter": tree.json(), "expected_pass": roots.iter().map(|o| eval_demanded(&tree.ct, o)).collect::<Vec<_>>()}));
+      }
+    });
+  }
+  rep.add_evals(evals.load(Ordering::Relaxed));
+
+  // report the kept (smallest) failures: unexplained first, then one class after the other
+  let mut k = std::mem::take(&mut *kept.lock());
+  k.sort_by(|a, b| (a.sig.is_some(), a.key).cmp(&(b.sig.is_some(), b.key)));
+  let mut reported: BTreeMap<String, u64> = BTreeMap::new();
+  // interleave classes so that each gets a replay file among the first five
+  let mut order: Vec<&Kept> = Vec::new();
+  let mut rank: HashMap<Option<&str>, usize> = HashMap::new();
+  let mut ranked: Vec<(usize, usize, &Kept)> = Vec::new();
+  for (i, x) in k.iter().enumerate() {
+    let r = rank.entry(x.sig).or_insert(0);
+    ranked.push((*r, i, x));
+    *r += 1;
+  }
+  ranked.sort_by_key(|x| (x.0, x.1));
+  for (_, _, x) in ranked {
+    order.push(x);
+  }
+  for x in order {
+    rep.fail(x.sig, &x.what, x.case.clone());
+    *reported.entry(x.sig.unwrap_or("unexplained").to_string()).or_default() += 1;
+  }
+  let counts = fail_counts.lock().clone();
+  for (label, n) in &counts {
+    let sig = if label == "unexplained" { None } else { Some(label.as_str()) };
+    if let Some(s) = sig {
+      if rep.is_known_open(s) {
+        continue;
+      }
+    }
+    let already = reported.get(label).copied().unwrap_or(0);
+    for _ in already..*n {
+      rep.fail(sig, "(further case of the same class)", Value::Null);
+    }
+  }
+
+  let to = timed_out.load(Ordering::Relaxed);
+  let discriminating = tree_true.iter().zip(&tree_false).filter(|(a, b)| a.load(Ordering::Relaxed) && b.load(Ordering::Relaxed)).count();
+  let mut outcomes = 0;
+  if pass_cnt.load(Ordering::Relaxed) > 0 {
+    outcomes += 1;
+  }
+  if reject_cnt.load(Ordering::Relaxed) > 0 {
+    outcomes += 1;
+  }
+  if outcomes < 2 || discriminating == 0 {
+    vcore::ev::machinery_failure("C08 vacuous: filters never both passed and rejected documents");
+  }
+  let cov = vcore::cov! {
+    "distinct_nontrivial" => discriminating,
+    "rule" => "a filter tree is non-trivial when the documented semantics make it pass at least one document of the document set and reject at least one; cases = (world, tree), each deciding every document of the world",
+    "trees" => trees.len(),
+    "trees_by_leaves" => by_leaves.iter().map(|(k, v)| (k.to_string(), json!(v))).collect::<Map<String, Value>>(),
+    "tree_bound" => format!("all ordered And/Or/Not/Nested trees with <= {} leaves and depth <= 4 (leaf = depth 1); canonical-form reductions: no Not under Not, no And under And, no Or under Or, And/Or have >= 2 children; leaf alphabet per scope: full (10/4/3/2 leaves for document/comment/reply/deep scope) for trees with <= 2 leaves, 4/2/2/1 for 3 leaves, 2/2/2/1 for 4 leaves", if quick { 3 } else { 4 }),
+    "documents" => docs.len(),
+    "worlds" => worlds.len(),
+    "worlds_done" => worlds_done.load(Ordering::Relaxed),
+    "world_rule" => format!("single-document worlds for the {} quick documents; {} worlds packing the remaining documents two per world (layouts [2] / [1,1] alternating); all ordered pairs of {} pool documents x layouts [2],[1,1]", quick_docs.len(), bulk_pairs, pair_pool.len()),
+    "document_evaluations" => doc_evals.load(Ordering::Relaxed),
+    "documents_passing" => pass_cnt.load(Ordering::Relaxed),
+    "documents_rejected" => reject_cnt.load(Ordering::Relaxed),
+    "binding_decisive_evaluations" => binding_decisive.load(Ordering::Relaxed),
+    "document_evaluations_not_demanded_ambiguous" => ambiguous.load(Ordering::Relaxed),
+    "binding_rule" => "document evaluations whose documented answer differs from the naive flattened reading (no same-object / parent binding)",
+    "cases_matching_proper_subset_of_world" => proper_subset.load(Ordering::Relaxed),
+    "failure_classes" => counts.iter().map(|(k, v)| (k.clone(), json!(v))).collect::<Map<String, Value>>(),
+    "distinct_observed_outcomes" => outcomes,
+    "cap_hit" => if to { Some(format!("wall budget {deadline}s")) } else { None },
+    "exhaustive" => !to,
+  };
+  rep.finish(
+    cov,
+    vec![
+      "And[Nested p X, Nested p Y] binds X and Y to one object c of p (README); whether Nested clauses directly inside X and Y must then also share one grandchild (chains with a common prefix share all their objects, as the implementation does) or are independent existentials is not documented: both readings are computed and a document is only judged when they agree".into(),
+      "a null element inside an array of nullable nested objects is admitted both as 'no object' and as 'an object without properties' (the implementation gives it an object slot, so Nested(p, Not(..)) matches it); documents whose answer depends on that are not judged".into(),
+      "Not around Nested is the plain negation of the existential (README gives no other reading)".into(),
+      "left out because the documentation is silent: dotted-path leaves inside a Nested clause, Nested with a multi-segment path, Nested on a path that is not a child of the current scope, keyword filters on numeric fields and ranges on keyword fields, empty And/Or/KeywordIn, And directly under And (whether sibling binding crosses the inner And is not documented)".into(),
+      "every nesting level of the schema has one nested child, so all sibling Nested clauses under one And share their path; sibling Nested clauses with different paths are not exercised".into(),
+      "filters are observed through the request-level `filter` with match_all and execution bm25 only (bool.filter / constant_score are C07's concern)".into(),
+    ],
+  )
 }
